@@ -1,5 +1,5 @@
 #!/bin/sh
-# usage: tools/matrix.sh <outfile> [seeded dirs...]   mutant x check matrix.
+# usage: [OWN=1] tools/matrix.sh <outfile> [seeded dirs...]   mutant x check matrix (OWN=1: only the check of the change's own property).
 # For every seeded change: scratch worktree of /repo's HEAD under /tmp (removed afterwards), patch applied there,
 # every registered quick check run against it through VERIF_REPO (3 checks at a time), one line per (change, check).
 OUT="$1"; shift
@@ -14,7 +14,8 @@ for d in $DIRS; do
   git -C /repo worktree remove --force $wt 2>/dev/null
   git -C /repo worktree add -q --detach $wt HEAD || { echo "$name worktree-failed" >> "$OUT"; continue; }
   if ! git -C $wt apply "$V/$patch"; then echo "$name patch-does-not-apply" >> "$OUT"; git -C /repo worktree remove --force $wt; continue; fi
-  for id in $IDS; do echo $id; done | VERIF_REPO=$wt VERIF_EVIDENCE_DIR=$V/.work/mx-ev-$name xargs -P 3 -I{} sh -c \
+  ids="$IDS"; [ -n "$OWN" ] && ids=$(echo $name | cut -c1-3)
+  for id in $ids; do echo $id; done | VERIF_REPO=$wt VERIF_EVIDENCE_DIR=$V/.work/mx-ev-$name xargs -P 3 -I{} sh -c \
     'out=$(timeout 1800 ./check {} --tier quick 2>&1); rc=$?; echo "'$name' {} rc=$rc $(echo "$out" | grep -E "key=" | head -2 | cut -c1-160 | tr "\n" "|")"' >> "$OUT"
   git -C /repo worktree remove --force $wt
   rm -rf $V/.work/mx-ev-$name
